@@ -101,17 +101,23 @@ def run(pid, tier, seed):
         corpus = sem_corpus(seed, tier, family="semd", profile=prof)
     else:
         corpus = sem_corpus(seed, tier)
+    run_value_monitor(chk, pid, pid, corpus, seed, tier)
+    return chk.finish(min_evaluations=200, min_distinct=20)
+
+
+def run_value_monitor(chk, pid, monitor, corpus, seed, tier):
+    """Build `corpus`, run the C01/C02 value monitor on it and feed `chk`. Returns False when inconclusive."""
     try:
         derive_errors = corpus.build()
     except C.Inconclusive as e:
         chk.note_inconclusive(str(e)[:1500])
-        return chk.finish()
+        return False
     meta = corpus.meta()
     for de in derive_errors:
         # a generated item the real derive expanded into code rustc rejects: C16's business; here only coverage loss
         chk.hist("dropped_items", (de["message"] or "")[:60])
-    results = corpus.run(pid, seed, tier)
-    check_runs(chk, results, pid)
+    results = corpus.run(monitor, seed, tier)
+    check_runs(chk, results, monitor)
     for r in results:
         for ev in r["events"]:
             if ev.get("ev") != "type":
@@ -121,7 +127,7 @@ def run(pid, tier, seed):
             item = meta["items"].get(ent.get("item"), {})
             tags = item.get("tags", [])
             chk.add_eval(ev.get("checked", 0))
-            if pid == "C01":
+            if monitor == "C01":
                 nontrivial = ev.get("nontrivial", 0) > 0
             else:
                 nontrivial = ev.get("checked", 0) > 0
@@ -132,7 +138,7 @@ def run(pid, tier, seed):
                     chk.hist("feature_coverage", t.split("=")[0] if t.startswith("t:") else t)
             if ev.get("excluded"):
                 chk.hist("excluded_types", reason_class(ev["excluded"]))
-            if pid == "C01":
+            if monitor == "C01":
                 chk.hist("totals", "samples", ev.get("samples", 0))
                 chk.hist("totals", "serde_rejected", ev.get("serde_rejected", 0))
             else:
@@ -185,8 +191,10 @@ def run(pid, tier, seed):
                     chk.hist("inconclusive_types", reason_class(reason))
     chk.coverage_extra["dropped_by_rustc"] = {k: len(v) for k, v in corpus.dropped.items()}
     n_types = sum(1 for r in results for ev in r["events"] if ev.get("ev") == "type")
-    chk.coverage_extra["types"] = n_types
-    return chk.finish(min_evaluations=200, min_distinct=20)
+    chk.coverage_extra["types"] = chk.coverage_extra.get("types", 0) + n_types
+    return True
+
+
 
 
 def closure_source(meta, item_id, limit=12):
